@@ -1,13 +1,21 @@
+import PromVerif.Drv.C03
+import PromVerif.Drv.C06
+import PromVerif.Drv.C10
 import PromVerif.Drv.C13
 import PromVerif.Drv.Core
 import PromVerif.Drv.Expo
+import PromVerif.Drv.C19
 namespace PromVerif.Drv
 
 def dispatch (m : String) (args : List String) : String :=
   match m with
+  | "c03" => C03.handle args
+  | "c06" => C06.handle args
+  | "c10" => C10.handle args
   | "c13" => C13.handle args
   | "core" => Core.handle args
   | "expo" => Expo.handle args
+  | "c19" => C19.handle args
   | _ => "err unknown-module"
 
 end PromVerif.Drv
